@@ -236,6 +236,12 @@ func (fr *Frame) val(v ssa.Value) *Val {
 			u.fact(fmt.Sprintf("(distinct %s nil)", r))
 			u.fact(fmt.Sprintf("(< (birth %s) 0)", r))
 			u.globals = append(u.globals, r)
+			if c.RelString(nil) == "os.Args" {
+				// os.Args always holds at least the program name
+				k := u.regT(el)
+				u.fact(fmt.Sprintf("(>= (slen (select %s %s)) 1)", u.entryHeap(k), r))
+				u.assume["os.Args has at least one element (the program name)"] = true
+			}
 		}
 		return u.addrOfPtr(&Val{K: vTerm, T: r, Ty: types.NewPointer(el)})
 	case *ssa.FreeVar:
